@@ -293,3 +293,44 @@ def ident_programs():
         for k, src in forms.items():
             out.append(("ident/%s/%s" % (k, w), src))
     return out
+
+
+# ---- wrap-boundary sweep: the formatter first tries to write a node on one line of a given width and widens or
+# expands on overflow; every syntactic element should cross every such width.  One identifier of each template is
+# padded to every length 1..N, so that each later element (a type annotation, a default, `->`, an operator, a
+# closing bracket) is the one that crosses the limit for some length.
+WIDTH_TEMPLATES = [
+    ("func_param_ty", "let {P} = func wanted source_relation <relation> -> (source_relation | select wanted)"),
+    ("func_param_ty_first", "let {P} = func a <int> b -> a + b"),
+    ("func_two_tys", "let {P} = func a <int> b <float> -> <float> a + b"),
+    ("func_named_ty", "let {P} = func a scale <int>:2 -> a * scale"),
+    ("func_named_default_call", "let {P} = func a d <int>:(math.abs 1) -> a + d"),
+    ("func_ret_ty", "let {P} = func a b -> <text> f\"{a}{b}\""),
+    ("func_generic", "let {P} = func x <array> y <bool> z <text>:null -> <bool> x == null || y"),
+    ("func_body_pipeline", "let {P} = func rel <relation> -> <relation> (rel | filter a > 1 | select {a, b})"),
+    ("param_name", "let f = func {P} <int> other <int> -> <int> {P} + other"),
+    ("named_param_name", "let f = func a {P} <int>:1 -> a + {P}"),
+    ("let_ty", "let {P} <int> = 5"),
+    ("let_ty_tuple", "let {P} <{a = int, b = text}> = {a = 1, b = \"x\"}"),
+    ("type_def", "type {P} = {first = int, second = text, third = [float]}"),
+    ("select_alias", "from t | select {{P} = a + b, c = (f a b:2), d}"),
+    ("call_named", "from t | derive {x = (f {P} a:1 b:2)}"),
+    ("bool_chain", "from t | filter {P} > 1 && {P} < 2 || {P} == null"),
+    ("join", "from t | join side:left {P} (==id) | select {t.id, {P}.x}"),
+    ("case", "from t | derive {x = case [{P} > 1 => \"big\", {P} == null => null, true => \"small\"]}"),
+    ("range_ty", "from t | filter ({P} | in 1..10) | take 1..5"),
+    ("annotation", "@{binding_strength=11}\nlet {P} = func l r -> <bool> null"),
+    ("module", "module {P} {\n  let inner = func a <int> -> <int> a + 1\n}\nfrom t | derive {x = ({P}.inner a)}"),
+    ("into", "from t | select {a, b} | into {P}\nfrom {P} | take 1"),
+    ("sstring", "from t | derive {x = s\"COALESCE({{P}}, 0) + 1\", y = f\"{{P}} and {b}\"}"),
+    ("array", "from t | filter ({P} | in [1, 2, 3]) | derive {y = [{P}, a, b]}"),
+]
+
+
+def width_programs(max_len=110):
+    out = []
+    for name, tpl in WIDTH_TEMPLATES:
+        for n in range(1, max_len + 1):
+            pad = ("p" + "abcdefghij" * 12)[:n]
+            out.append(("width:" + name, tpl.replace("{{P}}", "{" + pad + "}").replace("{P}", pad)))
+    return out
